@@ -10,6 +10,7 @@ import Mathlib.Tactic.NormNum.Prime
 import Mathlib.Algebra.Field.ZMod
 import Mathlib.Tactic.ComputeDegree
 import BronVerif.Lemmas.SharingExamples
+import BronVerif.Lemmas.SharingLCW
 import Mathlib.LinearAlgebra.Matrix.NonsingularInverse
 import Mathlib.Tactic.IntervalCases
 import BronVerif.Model.Access
@@ -28,6 +29,7 @@ over an arbitrary field with target `e_z` (`Pi.single z 1`); `Model/Sharing.lean
 namespace BronVerif.Props.C02
 open Matrix BigOperators Polynomial
 open BronVerif.Lemmas.SharingSpan BronVerif.Lemmas.SharingPoly BronVerif.Lemmas.SharingExamples
+open BronVerif.Lemmas.SharingLCW
 
 section SpanProgramme
 variable {F : Type*} [Field F] {ρ δ : Type*} [Fintype ρ] [Fintype δ] [DecidableEq δ]
@@ -410,5 +412,116 @@ example : ∃ c : Fin 3 → ZMod 7, (∀ i ∉ ({0, 1} : Finset (Fin 3)), c i = 
   hier_qualified_accepted_partial M23 0 {0, 1} ![0, 1] (by decide) (by decide)
 
 end Partial
+
+section Insertion
+variable {F : Type*} [Field F] {ρ δ ι : Type*} [Fintype ρ] [Fintype δ] [Fintype ι] [DecidableEq ρ]
+  [DecidableEq δ] [DecidableEq ι]
+
+/-- **Liu–Cao–Wong insertion step** (the inductive step of `lcw_statement`, proved for arbitrary
+programmes and arbitrary `t`-of-`n` gates, hence for any AND/OR/threshold nesting *without repeated
+leaves*): after replacing row `z₀` by a `t`-of-children gate (`lcwInsert`, one iteration of
+`boolexpr.convert`), the rows `R` (not containing `z₀`) together with the children `K` span the
+target iff, in the old programme, `R` together with `z₀` — usable exactly when at least `t`
+children are present — spans it.  Missing for `lcw_statement`: the induction over `lcwRun` on the
+list-based model and the case of one shareholder labelling several leaves. -/
+theorem lcw_insertion_partial (M : Matrix ρ δ F) (z : δ) (z₀ : ρ) (x : ι → F) (hx : Function.Injective x)
+    (hx0 : ∀ i, x i ≠ 0) (t : ℕ) (ht : 0 < t) (R : Finset ρ) (hR : z₀ ∉ R) (K : Finset ι) :
+    (∃ c' : ρ ⊕ ι → F, (∀ r ∉ R, c' (.inl r) = 0) ∧ (∀ i ∉ K, c' (.inr i) = 0) ∧
+        c' ᵥ* lcwInsert M z₀ x t = Pi.single (.inl z) 1) ↔
+    (∃ c : ρ → F, (∀ r ∉ R, r ≠ z₀ → c r = 0) ∧ (K.card < t → c z₀ = 0) ∧
+        c ᵥ* M = Pi.single z 1) := by
+  constructor
+  · rintro ⟨c', hRc, hKc, hc'⟩
+    have hz₀ : c' (.inl z₀) = 0 := hRc z₀ hR
+    refine ⟨fun r => if r = z₀ then ∑ i, c' (.inr i) else c' (.inl r), ?_, ?_, ?_⟩
+    · intro r hr hne; simp [hne, hRc r hr]
+    · intro hlt
+      have hall := moments_zero x hx hx0 t K hlt (fun i => c' (.inr i)) hKc (fun k => by
+        have := congrFun hc' (.inr k)
+        rw [lcwInsert_vecMul_inr] at this
+        simpa using this)
+      simp [hall]
+    · ext j
+      have := congrFun hc' (.inl j)
+      rw [lcwInsert_vecMul_inl] at this
+      have hs : (Pi.single (Sum.inl z) (1 : F) : δ ⊕ Fin (t - 1) → F) (.inl j) = (Pi.single z (1 : F) : δ → F) j := by
+        by_cases h : j = z
+        · subst h; simp
+        · simp [h]
+      rw [hs] at this
+      rw [← this]
+      simp only [vecMul, dotProduct]
+      have hpt : ∀ r, (if r = z₀ then ∑ i, c' (.inr i) else c' (.inl r)) * M r j
+          = c' (.inl r) * M r j + (if r = z₀ then (∑ i, c' (.inr i)) * M z₀ j else 0) := by
+        intro r
+        by_cases h : r = z₀
+        · subst h; simp [hz₀]
+        · simp [h]
+      simp only [hpt, Finset.sum_add_distrib, Finset.sum_ite_eq', Finset.mem_univ, if_true]
+  · rintro ⟨c, hRc, hKc, hc⟩
+    -- weights on the children: c z₀ · ℓᵢ(0) on a t-subset of K (or zero)
+    obtain ⟨b, hbK, hb1, hbm⟩ : ∃ b : ι → F, (∀ i ∉ K, b i = 0) ∧ (∑ i, b i = c z₀) ∧
+        ∀ k : Fin (t - 1), ∑ i, b i * x i ^ ((k : ℕ) + 1) = 0 := by
+      by_cases hlt : K.card < t
+      · exact ⟨0, fun _ _ => rfl, by simp [hKc hlt], fun _ => by simp⟩
+      · obtain ⟨T, hTK, hTc⟩ := Finset.exists_subset_card_eq (Nat.le_of_not_lt hlt)
+        have hv : Set.InjOn x T := fun a _ b _ h => hx h
+        refine ⟨fun i => if i ∈ T then c z₀ * (Lagrange.basis T x i).eval 0 else 0, ?_, ?_, ?_⟩
+        · intro i hi
+          have : i ∉ T := fun h => hi (hTK h)
+          simp [this]
+        · rw [← Finset.sum_filter, Finset.filter_mem_eq_inter, Finset.univ_inter, ← Finset.mul_sum]
+          have := lagrange_zero_sum' T x hv 1 (by rw [degree_one, hTc]; exact_mod_cast ht)
+          simp only [eval_one, mul_one] at this
+          rw [this, mul_one]
+        · intro k
+          simp only [ite_mul, zero_mul]
+          rw [← Finset.sum_filter, Finset.filter_mem_eq_inter, Finset.univ_inter]
+          have := lagrange_zero_sum' T x hv (X ^ ((k : ℕ) + 1)) (by
+            rw [degree_X_pow, hTc]; have := k.2; exact_mod_cast (by omega : (k : ℕ) + 1 < t))
+          simp only [eval_pow, eval_X] at this
+          calc ∑ i ∈ T, c z₀ * (Lagrange.basis T x i).eval 0 * x i ^ ((k : ℕ) + 1)
+              = c z₀ * ∑ i ∈ T, (Lagrange.basis T x i).eval 0 * x i ^ ((k : ℕ) + 1) := by
+                rw [Finset.mul_sum]; exact Finset.sum_congr rfl fun i _ => by ring
+            _ = 0 := by rw [this]; simp
+    refine ⟨fun r => match r with | .inl r => if r = z₀ then 0 else c r | .inr i => b i, ?_, ?_, ?_⟩
+    · intro r hr
+      by_cases h : r = z₀
+      · simp [h]
+      · simp [h, hRc r hr h]
+    · intro i hi; simp [hbK i hi]
+    · ext col
+      cases col with
+      | inl j =>
+        rw [lcwInsert_vecMul_inl]
+        have hs : (Pi.single (Sum.inl z) (1 : F) : δ ⊕ Fin (t - 1) → F) (.inl j) = (Pi.single z (1 : F) : δ → F) j := by
+          by_cases h : j = z
+          · subst h; simp
+          · simp [h]
+        rw [hs, ← hc]
+        simp only [vecMul, dotProduct, hb1]
+        have hpt : ∀ r, c r * M r j
+            = (if r = z₀ then 0 else c r) * M r j + (if r = z₀ then c z₀ * M z₀ j else 0) := by
+          intro r
+          by_cases h : r = z₀
+          · subst h; simp
+          · simp [h]
+        rw [Finset.sum_congr rfl (fun r _ => hpt r)]
+        simp only [Finset.sum_add_distrib, Finset.sum_ite_eq', Finset.mem_univ, if_true]
+      | inr k =>
+        rw [lcwInsert_vecMul_inr]
+        simpa using hbm k
+
+
+/-- non-vacuity: the root row `[1]` replaced by a 2-of-3 gate over `ZMod 7`; children 0 and 1 -/
+example : ∃ c' : Unit ⊕ Fin 3 → ZMod 7, (∀ r ∉ (∅ : Finset Unit), c' (.inl r) = 0) ∧
+    (∀ i ∉ ({0, 1} : Finset (Fin 3)), c' (.inr i) = 0) ∧
+    c' ᵥ* lcwInsert (fun _ _ => (1 : ZMod 7)) () (fun i : Fin 3 => ((i : ℕ) + 1 : ZMod 7)) 2
+      = Pi.single (.inl ()) 1 :=
+  (lcw_insertion_partial (fun _ _ => (1 : ZMod 7)) () () (fun i : Fin 3 => ((i : ℕ) + 1 : ZMod 7))
+    (by decide) (by decide) 2 (by omega) ∅ (by simp) {0, 1}).mpr
+    ⟨fun _ => 1, by simp, by decide, by ext; simp [vecMul, dotProduct]⟩
+
+end Insertion
 
 end BronVerif.Props.C02
